@@ -1,8 +1,12 @@
 """C09 - no peer input can panic or wedge the library.
 
 A: TLC checks the generator of tla/PeerInput.tla (every handler-table state is reached, every
-   shape of every registered stanza occurs in every such state) and the run protocol
-   (C09_Terminates under the fairness the property demands of the library).
+   shape of every registered stanza occurs in every such state, in both configurations of the
+   handler table - every optional callback set / default zero-value handlers -, alone and twice
+   in a row followed by the helper call of its handler; the local state "bytestream with
+   unflushed bytes" is reached for both carriers) and the run protocol (C09_Terminates under
+   the fairness the property demands of the library, whatever the configuration and the local
+   state of the extension).
 B: TLC emits the shaped stanzas, the sequences (stanzas + application actions) and the
    request-helper x reply-shape scenarios; the driver adds a seeded sample of truncations.
 C: every scenario runs against a really served session whose mux carries all the library's
@@ -35,12 +39,27 @@ def run(ctx):
     ctx.log("TLC validated %d traces / %d events: %d rejected (%d states, %.1fs)" % (
         summ["traces"], summ["events"], len(rej), r.distinct, r.wall))
     groups = pc.report(ctx, tr, rej)
+    if ctx.unestablished:
+        # scenarios whose setup did not reach the table / local state the generator meant say
+        # nothing about the library; without them the coverage claimed below would be wrong
+        msg = "%d scenario(s) did not reach the state their setup is meant to establish: %s" % (len(ctx.unestablished), ctx.unestablished[:5])
+        if not ctx.violations:
+            raise verif.Undecided(msg)
+        ctx.notes.append(msg)
     if summ["unreproduced_stalls"]:
         # a scenario that looked stalled once (a loaded machine) and completed when re-run alone is
         # neither a violation nor a reason to give up: it is recorded
         ctx.notes.append("%d scenario(s) looked stalled once and completed when re-run alone: %s" % (
             len(summ["unreproduced_stalls"]), summ["unreproduced_stalls"][:10]))
-    nself = pc.selftest_binding(ctx, tr) if len(rej) < summ["traces"] else 0
+    nself = 0
+    if len(rej) < summ["traces"]:
+        try:
+            nself = pc.selftest_binding(ctx, tr)
+        except verif.Undecided as e:
+            if not ctx.violations:
+                raise
+            # the violations found stand; the self-test needs accepted traces of certain kinds
+            ctx.notes.append("binding self-test not completed on this tree: %s" % e)
 
     # aid to the grammar: which functions with an unchecked assertion on a peer token were reached
     scan = pc.scan_assertions(verif.REPO)
@@ -70,7 +89,13 @@ def run(ctx):
         "binding_selftest_corruptions_rejected": nself,
         "unchecked_token_assertions": scan, "coverage_instrumented": bool(cov is not None),
         "exhaustive": ("every shape of every stanza of every registered (handler, kind, type, payload) alone and after every setup "
-                       "of <= %s steps that reaches a table state of its handler; every helper x every reply shape" % ("2-3" if quick else "3-4")),
+                       "of <= %s steps that reaches a table state of its handler (IBB: incl. a bytestream with written, unflushed bytes "
+                       "below the block size, iq and message carrier), each in both handler configurations (every optional callback set / "
+                       "default zero-value handlers); every stanza twice in a row followed by the helper call of its handler (empty table: "
+                       "all handlers; every table state: %s); every helper x every reply shape" % (
+                           "2-3" if quick else "3-4", "receipts, ibb" if quick else "all stateful handlers")),
+        "handler_configurations": ["listen (all optional callbacks, IBB listener)", "zero (default handlers, IBB listener)", "nolisten"],
+        "local_states": ["clean", "buffered (bytes written to an accepted bytestream, below the block size, not flushed)"],
         "rule": "one scenario = one real served session (full mux) fed a TLC-emitted sequence of shaped stanzas and application "
                 "actions, or one helper call answered by TLC-emitted shaped replies; plus seeded random sequences of 4 stanzas of any "
                 "handlers and a seeded sample of scenarios whose last stanza is cut at every token boundary and at 3 random "
@@ -79,6 +104,11 @@ def run(ctx):
     }, assumptions=[
         "handler tables are independent: a setup of handler H is followed by probes addressed to H only (plus every stanza alone)",
         "the application side is the documented use of each handler/helper (iterate, read, close; contexts cancelled when the session is gone)",
+        "configuration 'zero' leaves unset the callbacks the library treats as optional (receipts Unhandled, muc client / direct invitation "
+        "callbacks, blocklist callbacks, bin Get, xtime TimeFunc, history's inner handler); roster Push, carbons F and the function of "
+        "disco.HandleCaps are called unconditionally by the library and stay set",
+        "a setup whose application action did not establish its state (request not sent, call failed, local state not observed) makes the "
+        "run undecided (exit 2), never a violation",
         "byte strings outside the grammar (ill-formed UTF-8, nesting bombs, huge sizes) are not explored: that is fuzzing; truncations are sampled",
         "a stall is reported only if it happens again twice under a 4 s watchdog when re-run; at most 16 stalls are re-run per run",
         "races between a cancelled caller and the serve loop (receipts, history iterator closed early) need the scheduler of C06 and are not explored here",
@@ -92,4 +122,6 @@ def replay(ctx):
     tr, summ = pc.drive(ctx, ctx.go_build("peerinput"), "-", [p], 0, name="replay")
     rej, r = pc.validate(ctx, tr, name="TrPeerInput_replay")
     pc.report(ctx, tr, rej)
+    if ctx.unestablished and not ctx.violations:
+        raise verif.Undecided("the setup of the replayed scenario did not establish its state: %s" % ctx.unestablished[:1])
     ctx.log("replayed 1 scenario: %d rejected; outcomes %s" % (len(rej), json.dumps(summ["outcomes"], sort_keys=True)))
